@@ -78,12 +78,16 @@ LEVEL_NOTE = ("Exact-arithmetic statements; IEEE rounding is outside. 'All dista
               "for what Svd.decompose returns (C08_svd_decompose_subset_min_norm, C08_svd_decompose_datum); not proved: "
               "convergence of the QR iteration (= decompose returns), rounding. Every per-solver instance carries its "
               "solver's 'tested quantity is exactly 0 or above the tolerance' premise; the real kernels' absolute "
-              "tolerances under extreme weights are known findings (F22, C09-F2, C10-TINY).")
+              "tolerances under extreme weights are known findings (F22, C09-F2, C10-TINY); F22 is met by the net stream "
+              "itself (a 7-point free trilateration network refused by --algorithm envelope only; recognised by the "
+              "solver-level defect count env < chol = gso = svd = expected, see classify).")
 TECHNIQUE = "Lean 4 proof (Mathlib matrices over an ordered field) + model/implementation correspondence + metamorphic oracles"
 MODELLED = c01p.MODELLED + ["gama-local's iteration of the linearisation and its text/XML output (observed, not modelled)"]
 ASSUMPTIONS = c01p.ASSUMPTIONS + ["network oracle: generated networks are well determined apart from the datum defect "
                                   "(runs reporting another defect are counted and skipped)"]
-TRUSTED = ["tools/lib/gen_ls.py exact rational kernel / 'resolves' decision", "tools/lib/gen_net.py gkf writer and result reader"]
+TRUSTED = ["tools/lib/gen_ls.py exact rational kernel / 'resolves' decision / reference solution (the latter decides ls cases "
+           "whose x lines miss the componentwise 1e-9 comparison on an ill-conditioned problem: exact_x_verdict)",
+           "tools/lib/gen_net.py gkf writer and result reader"]
 
 ALGS = c01p.ALGS
 NET_ALGS = ("envelope", "cholesky", "gso", "svd")
@@ -597,6 +601,49 @@ def net_adjusted(rc, res):
     return rc == 0 and res is not None and res.get("sum_of_squares") is not None and not res.get("has_error")
 
 
+def solver_defects(ctx, gkf):
+    """the root cause of F22 made observable: the four solvers' OWN defect counts on the project equations of the file.
+    The real LocalNetwork (harness/pe_net.cpp: parse, revision, project_equations()) gives rows, right-hand side,
+    variances and min_x_; the rows are homogenised here by sigma-apr/stdev (diagonal clusters only, else None) and
+    handed to harness/adj_harness.cpp: {"env": d, "chol": d, "gso": d, "svd": d} (None where a solver did not answer)"""
+    from gen import pe_stream
+    m = re.search(r'sigma-apr="([^"]+)"', gkf)
+    m0 = float(m.group(1)) if m else 10.0
+    with tempfile.TemporaryDirectory(prefix="c08-f22-") as tmp:
+        path = os.path.join(tmp, "probe.gkf")
+        with open(path, "w") as f:
+            f.write(gkf)
+        out, crashes = run_cases(pe_stream.pe_harness(ctx), [[f"load {path} env", "pass"]])
+    if crashes or not out:
+        return None
+    rows, rhs, var, minx, dims = [], [], [], None, None
+    for l in out[0]:
+        t = l.split()
+        if t[:2] == ["R", "n"]:
+            dims = (int(t[2]), int(t[3]))
+        elif t[:2] == ["R", "row"]:
+            rhs.append(hex2float(t[2]))
+            rows.append([(int(t[4 + 2 * k]), hex2float(t[5 + 2 * k])) for k in range(int(t[3]))])
+        elif t[:2] == ["R", "cov"]:
+            if int(t[3]) != 0:
+                return None
+            var += [hex2float(v) for v in t[4:4 + int(t[2])]]
+        elif t[:2] == ["R", "minx"]:
+            minx = [int(v) for v in t[3:]]
+    if not dims or len(rows) != dims[0] or len(var) != dims[0] or any(v <= 0 for v in var):
+        return None
+    w = [m0 / math.sqrt(v) for v in var]
+    prob = [f"problem {dims[0]} {dims[1]}"]
+    for r, wi in zip(rows, w):
+        prob.append("row %d %s" % (len(r), " ".join(f"{c} {float2hex(v * wi)}" for c, v in r)))
+    prob.append(f"cov {dims[0]} 0 " + " ".join(float2hex(1.0) for _ in rows))
+    prob.append("rhs " + " ".join(float2hex(b * wi) for b, wi in zip(rhs, w)))
+    prob.append(("minx %d %s" % (len(minx), " ".join(map(str, minx)))) if minx else "minx none")
+    prob.append("end")
+    impl, _ = run_cases(harness(ctx), [prob + [f"new {a} solver", "defect"] for a in ALGS])
+    return {a: (int(o[2].split()[1]) if len(o) > 2 and o[2].startswith("int ") else None) for a, o in zip(ALGS, impl)}
+
+
 def net_others(results, ci, si, it, alg):
     """what the OTHER algorithms made of the same input file (same iteration mode when it was run, else the single
     linear adjustment): recorded with a failed run so that the failure carries its own signature"""
@@ -632,6 +679,7 @@ def net_stream(ctx, corr, n, gama_dir=None):
             for fu in concurrent.futures.as_completed(futs):
                 results[futs[fu][:4]] = (futs[fu][4], fu.result())
     checked = 0
+    f22_nets, probes = set(), {}
     for ci, c in enumerate(cases):
         for it in (0, None):
             runs, texts, skip = [], {}, None
@@ -646,15 +694,23 @@ def net_stream(ctx, corr, n, gama_dir=None):
                               sample={"family": c["fam"], "sets": c["sets"]} if ci == 0 and alg == "envelope" and it == 0 else None)
                     corr.count("net_family_" + c["fam"])
                     if not net_adjusted(rc, res):
-                        corr.fail(f"gama-local did not adjust a free network with an admissible constraint set ({label}): rc={rc}",
-                                  {"stream": "net", "family": c["fam"], "gkf": gkf, "alg": alg, "iterations": it,
+                        payload = {"stream": "net", "family": c["fam"], "gkf": gkf, "alg": alg, "iterations": it,
                                    "error": (res or {}).get("error_text", ""), "expected_defect": c["defect"],
-                                   "others": net_others(results, ci, si, it, alg)},
-                                  "LocalNetwork", err)
+                                   "others": net_others(results, ci, si, it, alg)}
+                        if alg == "envelope" and payload["error"].endswith("No unknowns have been defined"):
+                            if gkf not in probes:
+                                try:
+                                    probes[gkf] = solver_defects(ctx, gkf)
+                                except BuildError:
+                                    probes[gkf] = None
+                            payload["solver_defect"] = probes[gkf]
+                        corr.fail(f"gama-local did not adjust a free network with an admissible constraint set ({label}): rc={rc}",
+                                  payload, "LocalNetwork", err)
                         if classify(ctx, corr.failures[-1]) == "F22":
                             # the envelope run is lost to the known finding; the property is still checked on the
                             # runs of the other algorithms (both constraint sets)
                             corr.count("net_envelope_runs_lost_to_F22")
+                            f22_nets.add(ci)
                         else:
                             skip = "failed"
                         continue
@@ -685,6 +741,16 @@ def net_stream(ctx, corr, n, gama_dir=None):
                                                "violations": bad[:12]},
                           "LocalNetwork::project_equations / AdjBase::min_x", "\n".join(bad[:12]))
     corr.count("net_networks_checked", checked)
+    corr.count("net_networks_with_F22", len(f22_nets))
+    # F22 is rare on the unchanged tree (1 of 2000 generated networks at thorough size, none in quick seeds 1-5); a tree on
+    # which envelope refuses many free networks with that signature has a different problem, which must not hide
+    # behind the known finding
+    if len(f22_nets) > max(1, len(cases) // 250):
+        corr.fail(f"--algorithm envelope refuses {len(f22_nets)} of {len(cases)} generated free networks that cholesky, gso "
+                  f"and svd adjust ('No unknowns have been defined'): far above the rate of known finding F22",
+                  {"stream": "net-rate", "networks": sorted(f22_nets)[:20],
+                   "gkf": next(f.replay["gkf"] for f in corr.failures if isinstance(f.replay, dict) and f.replay.get("gkf"))},
+                  "Envelope::cholDec", "")
     return checked, len(cases)
 
 
@@ -1102,7 +1168,10 @@ def classify(ctx, failure):
         'No unknowns have been defined';
       * the input is a free network (constrained coordinates, no fixed point);
       * cholesky, gso AND svd all adjusted the very same file, each with the expected datum defect and the same
-        degrees of freedom, and with the same sum of squares wherever they ran in the same iteration mode."""
+        degrees of freedom, and with the same sum of squares wherever they ran in the same iteration mode;
+      * the root cause itself is observed (solver_defects): on the project equations of that file the envelope
+        solver counts a SMALLER defect than expected while chol, gso and svd count the expected one (an envelope run
+        that ends the same way for another reason — mutant M1 of thorough run 3: x not regularised — is not F22)."""
     inp = failure.replay if isinstance(failure.replay, dict) else {}
     if inp.get("stream") != "net" or inp.get("alg") != "envelope" or not failure.what.endswith("rc=0") \
             or not failure.what.startswith("gama-local did not adjust a free network with an admissible constraint set") \
@@ -1110,6 +1179,9 @@ def classify(ctx, failure):
         return None
     gkf = inp.get("gkf", "")
     if not re.search(r'adj="[XYZ]+"', gkf) or re.search(r'fix="', gkf):
+        return None
+    sd, want = inp.get("solver_defect") or {}, inp.get("expected_defect")
+    if sd.get("env") is None or want is None or not sd["env"] < want or any(sd.get(a) != want for a in ("chol", "gso", "svd")):
         return None
     others = inp.get("others") or {}
     if set(others) != {"cholesky", "gso", "svd"}:
@@ -1144,7 +1216,7 @@ def replay(ctx, payload):
         print(json.dumps(payload.get("no_longer_checks"), indent=1)[:3000])
         return 1
     inp = f["input"]
-    if inp.get("stream") == "net":
+    if inp.get("stream") in ("net", "net-rate"):
         exe = Path(ctx.build_gama(sanitize=False, targets=("gama-local",))) / "gama-local"
         with tempfile.TemporaryDirectory(prefix="c08-") as tmp:
             for k in ("gkf", "gkf1", "gkf2"):
